@@ -4,6 +4,9 @@ package main
 // small helpers shared by every rule. Every run re-loads /repo from disk.
 
 import (
+	"crypto/sha256"
+	"encoding/hex"
+	"encoding/json"
 	"fmt"
 	"go/ast"
 	"go/constant"
@@ -54,6 +57,11 @@ type Prog struct {
 	CG      *callgraph.Graph
 
 	nFuncs int
+
+	anchorOnce sync.Once
+	anchorTab  map[string]string
+	// Renamed: anchors that were not found under their recorded name and were resolved by fingerprint
+	Renamed []string
 }
 
 func LoadRepo(root string) (*Prog, error) {
@@ -125,6 +133,13 @@ func (p *Prog) Pkg(rel string) *packages.Package {
 // Func finds a package-level function or a method ("(*Generator).generateFile"
 // or "Generator.generateFile" both written as "Generator.generateFile").
 func (p *Prog) Func(rel, name string) *types.Func {
+	if f := p.funcByName(rel, name); f != nil {
+		return f
+	}
+	return p.funcByFingerprint(rel, name)
+}
+
+func (p *Prog) funcByName(rel, name string) *types.Func {
 	pk := p.Pkg(rel)
 	if pk == nil {
 		return nil
@@ -373,4 +388,109 @@ func (p *Prog) ConstCompareSet(info *types.Info, n ast.Node) []string {
 	}
 	sort.Strings(out)
 	return out
+}
+
+// ---- anchors that survive a rename
+//
+// Rules name the functions they analyse. A pure rename of an unexported function (a clean-up) must not turn the
+// check into UNRESOLVED: anchors.json (committed, written by `sebufcheck anchors` from the tree the rules were
+// confirmed on) records for every function of the generator packages a fingerprint of its body with every
+// repository-local function name, its own name and its local identifiers erased. When a name is not found, the
+// function of the same package and receiver with exactly that fingerprint is taken instead — if there is exactly one.
+// The fingerprint is used for nothing else (no rule compares it).
+
+func (p *Prog) fingerprint(fn *types.Func) string {
+	decl := p.Decls[fn]
+	if decl == nil || decl.Body == nil {
+		return ""
+	}
+	info := p.DeclPkg[fn].TypesInfo
+	rename := map[string]string{}
+	ast.Inspect(decl, func(n ast.Node) bool {
+		if id, ok := n.(*ast.Ident); ok {
+			if f, ok := info.Uses[id].(*types.Func); ok && f.Pkg() != nil && strings.HasPrefix(f.Pkg().Path(), modPath) {
+				rename[id.Name] = "F"
+			}
+		}
+		return true
+	})
+	rename[fn.Name()] = "F"
+	c := p.CanonFunc(fn, rename)
+	h := sha256.Sum256([]byte(c))
+	return hex.EncodeToString(h[:12])
+}
+
+func recvName(fn *types.Func) string {
+	sig, ok := fn.Type().(*types.Signature)
+	if !ok || sig.Recv() == nil {
+		return ""
+	}
+	t := sig.Recv().Type()
+	if pt, ok := t.(*types.Pointer); ok {
+		t = pt.Elem()
+	}
+	if n, ok := t.(*types.Named); ok {
+		return n.Obj().Name()
+	}
+	return ""
+}
+
+func anchorKey(rel string, fn *types.Func) string {
+	if r := recvName(fn); r != "" {
+		return rel + " " + r + "." + fn.Name()
+	}
+	return rel + " " + fn.Name()
+}
+
+// Anchors computes the table for the loaded tree.
+func (p *Prog) Anchors() map[string]string {
+	out := map[string]string{}
+	for fn := range p.Decls {
+		if fn.Pkg() == nil || !strings.HasPrefix(fn.Pkg().Path(), modPath+"/") {
+			continue
+		}
+		rel := strings.TrimPrefix(fn.Pkg().Path(), modPath+"/")
+		if !(strings.HasPrefix(rel, "internal/") || strings.HasPrefix(rel, "cmd/")) {
+			continue
+		}
+		if fp := p.fingerprint(fn); fp != "" {
+			out[anchorKey(rel, fn)] = fp
+		}
+	}
+	return out
+}
+
+func (p *Prog) funcByFingerprint(rel, name string) *types.Func {
+	p.anchorOnce.Do(func() {
+		p.anchorTab = map[string]string{}
+		dir := os.Getenv("VERIF_DIR")
+		if dir == "" {
+			dir = "/verif"
+		}
+		if b, err := os.ReadFile(filepath.Join(dir, "anchors.json")); err == nil {
+			_ = json.Unmarshal(b, &p.anchorTab)
+		}
+	})
+	want, ok := p.anchorTab[rel+" "+name]
+	if !ok {
+		return nil
+	}
+	recv := ""
+	if i := strings.Index(name, "."); i >= 0 {
+		recv = name[:i]
+	}
+	var found []*types.Func
+	for fn := range p.Decls {
+		if fn.Pkg() == nil || strings.TrimPrefix(fn.Pkg().Path(), modPath+"/") != rel || recvName(fn) != recv {
+			continue
+		}
+		if p.fingerprint(fn) == want {
+			found = append(found, fn)
+		}
+	}
+	if len(found) == 1 {
+		p.Renamed = append(p.Renamed, rel+" "+name+" → "+found[0].Name())
+		return found[0]
+	}
+	return nil
 }
